@@ -16,6 +16,18 @@ class Interp(InterpBase, ExprMixin, StmtMixin, FlowMixin, ExtMixin):
         res = self.call_func(st, None, func.node, func, recv, self_val, list(args), kwargs or {})
         outs = []
         for s, v in res:
+            if getattr(self, "decide_results", False) and not isinstance(v, Raised):
+                # a predicate that *returns* an undecided comparison (`return not address`): one outcome per truth value, with the
+                # comparison decided on each (events + refinement), exactly as if the caller had branched on the result
+                from .absval import Unknown, norm
+                from .interp import Frame
+                nv = norm(v) if hasattr(v, "key") and not isinstance(v, Ref) else v
+                if isinstance(nv, Unknown) and nv.ty == "bool" and nv.cmp is not None:
+                    tmp = Frame(func, recv, Ctx(self.prog, func, recv), s, {}, 0, self_val)
+                    for s2, pol in self.decide(func.node, None, s, tmp, True, nv):
+                        s2.envs.pop(tmp.fid, None)
+                        outs.append(Outcome("return", s2, Const(bool(pol))))
+                    continue
             outs.append(Outcome("raise" if isinstance(v, Raised) else "return", s, v))
         return outs
 
